@@ -360,10 +360,16 @@ Proof.
       eapply existsb_intro; [exact Hu|]. simpl. rewrite E2, eqb_refl'. reflexivity.
     - simpl. rewrite E1, eqb_refl'. simpl. apply andb_true_iff. split.
       + apply orb_true_iff. left. eapply existsb_intro; [exact Hu|]. simpl. rewrite E2, eqb_refl'. reflexivity.
-      + apply orb_true_iff. left. eapply existsb_intro; [exact Hu|]. rewrite E2, eqb_refl', C. reflexivity.
+      + apply orb_true_iff. left. eapply existsb_intro; [exact Hu|].
+        unfold upstream_requires_update. rewrite E2, eqb_refl', C. reflexivity.
     - simpl. rewrite E1, eqb_refl'. simpl. apply orb_true_iff. left.
       eapply existsb_intro; [exact Hu|]. simpl. rewrite E2, eqb_refl'. apply orb_true_r.
-    - simpl in NR. discriminate. }
+    - (* endpoints of the backup Service: only with fixes/F19c.diff *)
+      simpl in NR. apply negb_false_iff in NR.
+      simpl. rewrite E1, eqb_refl'. simpl. apply andb_true_iff. split.
+      + apply orb_true_iff. left. eapply existsb_intro; [exact Hu|]. simpl. rewrite E2, eqb_refl'. apply orb_true_r.
+      + apply orb_true_iff. left. eapply existsb_intro; [exact Hu|].
+        unfold upstream_requires_update. rewrite NR, E2, eqb_refl'. apply orb_true_r. }
   apply in_app_or in H. destruct H as [H|H].
   { (* routes *)
     apply in_flat_map in H. destruct H as [rt [Hrt H]].
@@ -391,12 +397,19 @@ Proof.
     + apply orb_true_iff. right. eapply existsb_intro; [exact Hvr|]. simpl.
       rewrite E1, eqb_refl'. simpl. eapply existsb_intro; [exact Hu|]. simpl. rewrite E2, eqb_refl'. reflexivity.
     + apply orb_true_iff. right. eapply existsb_intro; [exact Hvr|]. simpl.
-      eapply existsb_intro; [exact Hu|]. rewrite E2, eqb_refl', C. reflexivity.
+      eapply existsb_intro; [exact Hu|]. unfold upstream_requires_update. rewrite E2, eqb_refl', C. reflexivity.
   - simpl in NR. apply negb_false_iff in NR. rewrite NR in E.
     rewrite Hk in E. symmetry in E. apply secret_field_key in E; try assumption. destruct E as [E1 E2].
     simpl. apply orb_true_iff. right. eapply existsb_intro; [exact Hvr|]. simpl.
     rewrite E1, eqb_refl'. simpl. eapply existsb_intro; [exact Hu|]. simpl. rewrite NR, E2, eqb_refl'. simpl. apply orb_true_r.
-  - simpl in NR. discriminate.
+  - (* endpoints of the backup Service: only with fixes/F19c.diff and fixes/F19a.diff *)
+    simpl in NR. apply negb_false_iff in NR. apply andb_true_iff in NR. destruct NR as [NC NA]. rewrite NA in E.
+    rewrite Hk in E. symmetry in E. apply secret_field_key in E; try assumption. destruct E as [E1 E2].
+    simpl. apply andb_true_iff. split.
+    + apply orb_true_iff. right. eapply existsb_intro; [exact Hvr|]. simpl.
+      rewrite E1, eqb_refl'. simpl. eapply existsb_intro; [exact Hu|]. simpl. rewrite NA, E2, eqb_refl'. simpl. apply orb_true_r.
+    + apply orb_true_iff. right. eapply existsb_intro; [exact Hvr|]. simpl.
+      eapply existsb_intro; [exact Hu|]. unfold upstream_requires_update. rewrite NC, E2, eqb_refl'. apply orb_true_r.
 Qed.
 
 (* ------------------------------------------------------------------ TransportServer *)
@@ -662,6 +675,115 @@ Proof.
   destruct p; simpl; try reflexivity. rewrite F. reflexivity.
 Qed.
 
+(* ------------------------------------------------------------------ endpoints are only consulted of Services with pods *)
+
+Lemma endpoints_dep_svc cl pp ky0 p k ky :
+  In (p, (k, ky)) (endpoints_dep cl pp ky0) -> svc_of cl ky = Some SvcPods.
+Proof.
+  unfold endpoints_dep. destruct (svc_of cl ky0) as [[|]|] eqn:S; try contradiction.
+  intros [H|[]]. injection H as _ _ <-. exact S.
+Qed.
+
+Lemma policy_deps_no_endpoints cl pp spec refs owner p ky :
+  ~ In (p, (KEndpoints, ky)) (policy_deps cl pp spec refs owner).
+Proof.
+  intros H. unfold policy_deps in H. apply in_app_or in H. destruct H as [H|H].
+  - apply in_map_iff in H. destruct H as [x [E _]]. discriminate E.
+  - unfold policy_hops in H.
+    repeat (apply in_app_or in H; destruct H as [H|H]);
+      try (apply sec_In in H; destruct H as [E _]; discriminate E).
+    + destruct spec; [|contradiction]. apply sec_In in H. destruct H as [E _]. discriminate E.
+    + apply in_map_iff in H. destruct H as [d [E H]]. injection E as _ E. subst d.
+      apply take_until_fail_In in H. apply in_flat_map in H. destruct H as [pol [_ H]].
+      unfold waf_items in H. destruct (p_waf pol) as [w|]; [|contradiction].
+      apply in_app_or in H. destruct H as [H|H].
+      * destruct (nonempty (w_ap_policy w)); [|contradiction]. destruct H as [H|[]]. discriminate H.
+      * apply in_app_or in H. destruct H as [H|H].
+        -- destruct (w_seclog w) as [l|]; [|contradiction]. destruct (w_seclogs w); [contradiction|].
+           destruct (nonempty l); [|contradiction]. destruct H as [H|[]]. discriminate H.
+        -- destruct (w_seclogs w) as [ls|]; [|contradiction]. apply in_flat_map in H. destruct H as [l [_ H]].
+           destruct (nonempty l); [|contradiction]. destruct H as [H|[]]. discriminate H.
+Qed.
+
+Lemma route_deps_no_endpoints cl pp pd owner rt p ky :
+  ~ In (p, (KEndpoints, ky)) (route_deps cl pp pd owner rt).
+Proof.
+  intros H. unfold route_deps in H. apply in_app_or in H. destruct H as [H|H].
+  - exact (policy_deps_no_endpoints _ _ _ _ _ _ _ H).
+  - apply dos_dep_In in H. destruct H as [E _]. discriminate E.
+Qed.
+
+Lemma upstream_deps_svc cl pu pb ns0 bns u p ky :
+  In (p, (KEndpoints, ky)) (upstream_deps cl pu pb ns0 bns u) -> svc_of cl ky = Some SvcPods.
+Proof.
+  unfold upstream_deps. intros [H|H]; [discriminate H|].
+  apply in_app_or in H. destruct H as [H|H].
+  - destruct (u_use_cluster_ip u); [contradiction|]. eapply endpoints_dep_svc; exact H.
+  - destruct (nonempty (u_backup u) && u_backup_port u); [|contradiction].
+    destruct H as [H|H]; [discriminate H|]. eapply endpoints_dep_svc; exact H.
+Qed.
+
+Lemma backend_deps_svc cl pp i svc p ky :
+  In (p, (KEndpoints, ky)) (backend_deps cl pp i svc) -> svc_of cl ky = Some SvcPods.
+Proof.
+  unfold backend_deps. intros [H|H]; [discriminate H|].
+  destruct (i_use_cluster_ip i); [contradiction|]. eapply endpoints_dep_svc; exact H.
+Qed.
+
+Lemma consulted_ing_svc e cl minion i p ky :
+  In (p, (KEndpoints, ky)) (consulted_ing e cl minion i) -> svc_of cl ky = Some SvcPods.
+Proof.
+  intros H. unfold consulted_ing in H.
+  repeat (apply in_app_or in H; destruct H as [H|H]).
+  - apply in_map_iff in H. destruct H as [s [E _]]. discriminate E.
+  - destruct (i_basic i); [|contradiction]. destruct H as [H|[]]. discriminate H.
+  - destruct (plus e); [|contradiction].
+    repeat (apply in_app_or in H; destruct H as [H|H]).
+    + destruct (i_jwt i); [|contradiction]. destruct H as [H|[]]. discriminate H.
+    + destruct (ap_enabled e && negb minion); [|contradiction].
+      apply in_app_or in H. destruct H as [H|H].
+      * destruct (i_ap_policy i); [|contradiction]. destruct H as [H|[]]. discriminate H.
+      * destruct (i_ap_logconf i); [|contradiction]. destruct (i_ap_logdst i); [|contradiction].
+        destruct (Nat.eqb _ _); [|contradiction].
+        apply in_map_iff in H. destruct H as [x [E H]]. injection E as _ E. subst x.
+        apply take_until_fail_In in H. apply in_map_iff in H. destruct H as [c [E _]]. discriminate E.
+    + destruct (dos_enabled e && negb minion); [|contradiction].
+      destruct (i_dos i); [|contradiction]. destruct H as [H|[]]. discriminate H.
+  - destruct (i_default i); [|contradiction]. eapply backend_deps_svc; exact H.
+  - apply in_flat_map in H. destruct H as [rl [_ H]]. destruct (ir_host_valid rl); [|contradiction].
+    destruct (ir_paths rl); [|contradiction]. apply in_flat_map in H. destruct H as [pa [_ H]].
+    destruct (ip_valid pa); [|contradiction]. eapply backend_deps_svc; exact H.
+Qed.
+
+Theorem consulted_endpoints_svc e cl r p ky :
+  In (p, (KEndpoints, ky)) (consulted e cl r) -> svc_of cl ky = Some SvcPods.
+Proof.
+  intros H. destruct r as [i|m ms|v|t]; simpl in H.
+  - eapply consulted_ing_svc; exact H.
+  - apply in_app_or in H. destruct H as [H|H]; [eapply consulted_ing_svc; exact H|].
+    apply in_flat_map in H. destruct H as [mi [_ H]]. eapply consulted_ing_svc; exact H.
+  - unfold consulted_vs in H.
+    apply in_app_or in H. destruct H as [H|H].
+    { destruct (vs_tls v) as [s|]; [|contradiction]. destruct (nonempty s); [|contradiction]. destruct H as [H|[]]. discriminate H. }
+    apply in_app_or in H. destruct H as [H|H]; [exfalso; exact (policy_deps_no_endpoints _ _ _ _ _ _ _ H)|].
+    apply in_app_or in H. destruct H as [H|H]; [apply dos_dep_In in H; destruct H as [E _]; discriminate E|].
+    apply in_app_or in H. destruct H as [H|H].
+    { apply in_flat_map in H. destruct H as [u [_ H]]. eapply upstream_deps_svc; exact H. }
+    apply in_app_or in H. destruct H as [H|H].
+    { apply in_flat_map in H. destruct H as [rt [_ H]]. exfalso. exact (route_deps_no_endpoints _ _ _ _ _ _ _ H). }
+    apply in_flat_map in H. destruct H as [vr [_ H]]. unfold vsr_deps in H.
+    apply in_app_or in H. destruct H as [H|H].
+    { apply in_flat_map in H. destruct H as [rt [_ H]]. exfalso. exact (route_deps_no_endpoints _ _ _ _ _ _ _ H). }
+    apply in_flat_map in H. destruct H as [u [_ H]]. eapply upstream_deps_svc; exact H.
+  - unfold consulted_ts in H. apply in_app_or in H. destruct H as [H|H].
+    + apply in_flat_map in H. destruct H as [u [_ H]]. unfold ts_upstream_deps in H.
+      destruct H as [H|H]; [discriminate H|].
+      apply in_app_or in H. destruct H as [H|H]; [eapply endpoints_dep_svc; exact H|].
+      destruct (nonempty (tu_backup u) && tu_backup_port u); [|contradiction].
+      destruct H as [H|H]; [discriminate H|]. eapply endpoints_dep_svc; exact H.
+    + destruct (ts_tls t) as [s|]; [|contradiction]. destruct (nonempty s); [|contradiction]. destruct H as [H|[]]. discriminate H.
+Qed.
+
 (* ------------------------------------------------------------------ several served resources *)
 
 Lemma reached_set_In e cl k ns name served r :
@@ -689,14 +811,46 @@ Theorem event_reaches_partial :
   forall e cl r p k ky ns name o relevant,
     cluster_wf cl -> resource_wf r -> valid_name ns -> valid_name name ->
     In (p, (k, ky)) (consulted e cl r) -> refuted_pos e p k = false -> ky = key ns name ->
-    ~ (k = KEndpoints /\ o = Delete) ->
+    (k = KEndpoints -> o = Delete -> slice_delete_fix e = true) ->
     (o = Update -> relevant = true) ->
     event_reaches e cl k o relevant ns name r = true.
 Proof.
   intros e cl r p k ky ns name o relevant WF RWF Vns Vname H NR Hk NE SV.
   pose proof (consulted_reachable_partial e cl r p k ky ns name WF RWF Vns Vname H NR Hk) as R.
   unfold event_reaches. destruct k, o; try exact R; try (rewrite (SV eq_refl); exact R).
-  exfalso. apply NE. auto.
+  (* the deletion of an EndpointSlice: through the Service, which exists because its endpoints were consulted *)
+  rewrite (NE eq_refl eq_refl). subst ky. rewrite (consulted_endpoints_svc _ _ _ _ _ H).
+  simpl in R. apply andb_true_iff in R. destruct R as [R _]. rewrite R. reflexivity.
+Qed.
+
+(* ------------------------------------------------------------------ the repaired code *)
+
+Lemma refuted_pos_fixed e p k :
+  vsr_backup_fix e = true -> backup_ep_fix e = true -> refuted_pos e p k = false.
+Proof. intros A C. destruct p, k; simpl; rewrite ?A, ?C; reflexivity. Qed.
+
+(* with fixes/F19a.diff and fixes/F19c.diff the statement planned in DESIGN.md holds in full *)
+Theorem consulted_reachable_fixed :
+  forall e cl r p k ky ns name,
+    vsr_backup_fix e = true -> backup_ep_fix e = true ->
+    cluster_wf cl -> resource_wf r -> valid_name ns -> valid_name name ->
+    In (p, (k, ky)) (consulted e cl r) -> ky = key ns name ->
+    reaches e cl k ns name r = true.
+Proof.
+  intros. eapply consulted_reachable_partial; try eassumption. apply refuted_pos_fixed; assumption.
+Qed.
+
+(* ... and with fixes/F19b.diff as well, every notification the handlers let through reaches the resource *)
+Theorem event_reaches_fixed :
+  forall e cl r p k ky ns name o relevant,
+    vsr_backup_fix e = true -> backup_ep_fix e = true -> slice_delete_fix e = true ->
+    cluster_wf cl -> resource_wf r -> valid_name ns -> valid_name name ->
+    In (p, (k, ky)) (consulted e cl r) -> ky = key ns name ->
+    (o = Update -> relevant = true) ->
+    event_reaches e cl k o relevant ns name r = true.
+Proof.
+  intros e cl r p k ky ns name o relevant A C B WF RWF Vns Vname H Hk SV.
+  eapply event_reaches_partial; try eassumption; [apply refuted_pos_fixed; assumption|auto].
 Qed.
 
 (* ------------------------------------------------------------------ counterexamples *)
@@ -718,7 +872,7 @@ Ltac witness := repeat match goal with
   | |- _ = _ => reflexivity
   end.
 
-Definition env0 : env := {| plus := true; ap_enabled := false; dos_enabled := false; vsr_backup_fix := false |}.
+Definition env0 : env := {| plus := true; ap_enabled := false; dos_enabled := false; vsr_backup_fix := false; backup_ep_fix := false; slice_delete_fix := false |}.
 
 Definition up (svc bak : string) : upstream :=
   {| u_service := svc; u_backup := bak; u_backup_port := negb (String.eqb bak ""); u_subselector := false; u_use_cluster_ip := false |}.
@@ -769,8 +923,9 @@ Qed.
 
 (* F19b: the deletion of an EndpointSlice reaches nothing, whatever depends on it *)
 Theorem endpointslice_delete_refuted :
-  forall e cl relevant ns name r, event_reaches e cl KEndpoints Delete relevant ns name r = false.
-Proof. reflexivity. Qed.
+  forall e cl relevant ns name r,
+    slice_delete_fix e = false -> event_reaches e cl KEndpoints Delete relevant ns name r = false.
+Proof. intros e cl relevant ns name r F. unfold event_reaches. rewrite F. reflexivity. Qed.
 
 Theorem endpointslice_delete_consulted :
   exists e cl r p ky ns name,
